@@ -20,3 +20,18 @@ Theorem C01_faithful : forall (L : Type) (leqb : L -> L -> bool) (ldef : L) (has
        has_edge_l leqb ldef has_store g i j l = Val (match lfind (i, j) (se a) with Some l' => leqb l' l | None => false end)).
 Proof. intros; apply C01_C03_directed_faithful; assumption. Qed.
 Print Assumptions C01_faithful.
+
+(* ---- ALL observers at once: after any valid history the whole observation vector of the model (size, edge count, hasEdge for every pair, neighbour
+   multisets and degrees, both label getters, hasEdge(i,j,l), in/out degree vectors, adjacency matrix, the multiset yielded by edges(), the iteration
+   segment) equals the observation vector computed from the pair-set spec - the very vector the spec oracle of the differential test prints ---- *)
+From Coq Require Import List Arith ZArith.
+From BG Require Import Base DirectedModel DirectedProofs DirectedSpec DirectedRefine DirectedObs UndirectedModel UndirectedProofs UndirectedSpec UndirectedRefine UndirectedObs MultiModel WeightedModel MultiSpec Totals MultiRefine WeightedRefine UTotals UMultiRefine UWeightedRefine Instances UndirectedUsers MultiUsers WeightedUsers ObserveSpec ObserveSpecLabelled.
+Import ListNotations.
+Local Close Scope Z_scope.
+Theorem C01_all_observers :
+  forall (L : Type) (leqb : L -> L -> bool) (ldef : L) (lcode : L -> Z) (lalpha : list L) (hs : bool) (n : nat) (ops : list (@dop L)),
+        valid_history (s_init n) ops = true ->
+        exists g : (@dgraph L),
+          run hs repaired (init n) ops = (g, Done) /\ observe leqb ldef lcode lalpha hs repaired g = sobserve leqb ldef hs lcode lalpha (spec_run (s_init n) ops).
+Proof. intros L. exact (@ObserveSpecLabelled.observe_history L). Qed.
+Print Assumptions C01_all_observers.
